@@ -79,13 +79,33 @@ func checkC13(r *Run, pre, post *Snap, st StepObs, broken map[int]bool) (string,
 		if !b.Present || !b.SPPresent {
 			continue
 		}
+		// known gap: replacing a killed / shut-down blobber leaves exactly that blobber's size and offer behind
+		sfx := ""
+		if st.Kind == "update-replace-killed" {
+			var remSize int64
+			var remOffer uint64
+			if pa := pre.Allocs[st.Op.A]; pa != nil {
+				for _, d := range pa.BAs {
+					if d.Blobber == st.Op.Rm-1 {
+						remSize, remOffer = d.Size, d.Offer
+					}
+				}
+			}
+			ds := new(big.Int).Sub(big.NewInt(b.Allocd), sizes[i])
+			do := new(big.Int).Sub(new(big.Int).SetUint64(b.Offers), offers[i])
+			okS := ds.Sign() == 0 || (i == st.Op.Rm-1 && ds.Cmp(big.NewInt(remSize)) == 0)
+			okO := do.Sign() == 0 || (i == st.Op.Rm-1 && do.Cmp(new(big.Int).SetUint64(remOffer)) == 0)
+			if !okS || !okO {
+				sfx = "-unexpected"
+			}
+		}
 		if !broken[-(i+1)] && sizes[i].Cmp(big.NewInt(b.Allocd)) != 0 {
 			broken[-(i+1)] = true
-			return "allocated-ne-sum-after-" + st.Kind, fmt.Sprintf("blobber %d: allocated %d != sum of sizes over open allocations %s", i, b.Allocd, sizes[i])
+			return "allocated-ne-sum-after-" + st.Kind + sfx, fmt.Sprintf("blobber %d: allocated %d != sum of sizes over open allocations %s", i, b.Allocd, sizes[i])
 		}
 		if !broken[-(100+i)] && offers[i].Cmp(new(big.Int).SetUint64(b.Offers)) != 0 {
 			broken[-(100+i)] = true
-			return "offers-ne-sum-after-" + st.Kind, fmt.Sprintf("blobber %d: total offers %d != sum of offers over open allocations %s", i, b.Offers, offers[i])
+			return "offers-ne-sum-after-" + st.Kind + sfx, fmt.Sprintf("blobber %d: total offers %d != sum of offers over open allocations %s", i, b.Offers, offers[i])
 		}
 		if st.OK && i < len(pre.Blob) && b.Allocd > pre.Blob[i].Allocd && b.Allocd > b.Cap && !broken[-(200+i)] {
 			broken[-(200+i)] = true
@@ -221,7 +241,7 @@ func checkC15(r *Run, pre, post *Snap, st StepObs, broken map[int]bool) (string,
 		return "", ""
 	}
 	op := st.Op
-	key := [3]int{op.B, op.C, op.A}
+	rkey := [3]int{op.B, op.C, op.A}
 	if !st.OK {
 		// a rejected marker must not change pools or counters (the transaction is rolled back as a whole)
 		return "", ""
@@ -230,18 +250,29 @@ func checkC15(r *Run, pre, post *Snap, st StepObs, broken map[int]bool) (string,
 		return "", ""
 	}
 	fail := func(k, d string) (string, string) { broken[-2] = true; return k, d }
+	// the marker must be signed by the key of the client it names: judged from the real key/id relation
+	cid, pk, signer := refKey(op.C).ID, refKey(op.C).PK, refKey(op.C)
 	if op.X&xBadSig != 0 {
-		return fail("foreign-signature-accepted", "read marker signed by a foreign key was redeemed")
+		signer = key("intruder")
 	}
 	if op.X&xBadID != 0 {
-		return fail("foreign-client-id-accepted", "read marker whose client id does not belong to the public key was redeemed")
+		cid = key("intruder").ID
 	}
-	last, had := pre.ReadCtr[key]
+	if op.X&xForgeKey != 0 {
+		signer, pk = key("intruder"), key("intruder").PK
+	}
+	if cid != keyOfPK(pk).ID {
+		return fail("foreign-key-accepted", "redeemed a read marker whose client id does not belong to the public key it carries")
+	}
+	if signer.PK != pk || signer.ID != cid {
+		return fail("foreign-signature-accepted", "redeemed a read marker not signed by the client it names")
+	}
+	last, had := pre.ReadCtr[rkey]
 	if had && op.N < last {
 		return fail("older-marker-accepted", fmt.Sprintf("counter %d accepted after %d", op.N, last))
 	}
-	if post.ReadCtr[key] != op.N {
-		return fail("counter-not-recorded", fmt.Sprintf("counter after redeem %d, marker %d", post.ReadCtr[key], op.N))
+	if post.ReadCtr[rkey] != op.N {
+		return fail("counter-not-recorded", fmt.Sprintf("counter after redeem %d, marker %d", post.ReadCtr[rkey], op.N))
 	}
 	pa := pre.Allocs[op.A]
 	if pa == nil {
@@ -381,7 +412,19 @@ func checkC09(r *Run, pre, post *Snap, st StepObs, broken map[int]bool) (string,
 	dl := new(big.Int).Sub(liabilities(post), liabilities(pre))
 	dw := new(big.Int).Sub(new(big.Int).SetUint64(post.Bal[refSC]), new(big.Int).SetUint64(pre.Bal[refSC]))
 	if dl.Cmp(dw) > 0 {
-		return "liabilities-grow-unbacked-after-" + st.Kind, fmt.Sprintf("liabilities grew by %s, wallet by %s", dl, dw)
+		kind := "liabilities-grow-unbacked-after-" + st.Kind
+		if st.Op.K == "freealloc" {
+			// the known gap: exactly the read-pool share of the grant is credited without a transfer
+			rec := st.Op.C
+			if rec == 0 {
+				rec = st.Op.S
+			}
+			grant := new(big.Int).Sub(new(big.Int).SetUint64(post.RP[rec]), new(big.Int).SetUint64(pre.RP[rec]))
+			if new(big.Int).Sub(dl, dw).Cmp(grant) != 0 {
+				kind += "-beyond-read-grant"
+			}
+		}
+		return kind, fmt.Sprintf("liabilities grew by %s, wallet by %s", dl, dw)
 	}
 	return "", ""
 }
